@@ -481,7 +481,42 @@ func checkC06(p *core.Program, r *core.Report) {
 	r.Rule(R5, "from the entry of the data-writer method (ShipConnectionDataWriterInterface) every path reaches the transport enqueue, except on the error exits of the wire transform and on the transport's closed answer: the writer is handed to the application inside the setup callback, i.e. before the state says completed, so a state-dependent early return silently drops the application's first datagrams")
 	checkWriterEnqueues(p, r, R5)
 	r.Floor(R5, 1)
+	const R6 = "C06.R6 failed-write-ends-the-connection"
+	r.Rule(R6, "a failed transport write - a write timeout included - is reported and ends the connection (shared with C13.R2): otherwise the datagram that hit the error and every later one are dequeued and discarded while the connection still looks open")
+	importRules(p, r, "C13", map[string]string{"C13.R2 error-told-or-not": R6}, nil)
 
+	// R7: nothing on the receive side limits the size of a message
+	const R7 = "C06.R7 no-message-size-limit"
+	r.Rule(R7, "no call of a gorilla connection method limits the size of a received message (SetReadLimit): the sending side puts no bound on a datagram, so any limit makes the receiver fail the read - and tear the connection down - for every datagram above it; every call site of a *websocket.Conn method in the repository is listed and classified")
+	for _, fn := range p.RepoFuncs() {
+		seen := map[string]bool{}
+		for _, b := range fn.Blocks {
+			for _, in := range b.Instrs {
+				c, ok := in.(ssa.CallInstruction)
+				if !ok {
+					continue
+				}
+				callee := c.Common().StaticCallee()
+				if callee == nil || callee.Signature.Recv() == nil {
+					continue
+				}
+				if types.TypeString(callee.Signature.Recv().Type(), nil) != "*github.com/gorilla/websocket.Conn" {
+					continue
+				}
+				key := "Conn." + callee.Name() + " in " + shortFn(p.FnName(fn))
+				if seen[key] {
+					continue
+				}
+				seen[key] = true
+				if callee.Name() == "SetReadLimit" {
+					r.Fail(R7, key, p.Pos(in.Pos()), "a read limit makes every datagram above it undeliverable: the read fails, the connection is closed, and the reconnect hits the same payload again")
+				} else {
+					r.OK(R7, key, p.Pos(in.Pos()), "does not limit the message size")
+				}
+			}
+		}
+	}
+	r.Floor(R7, 10)
 }
 
 // checkWriterEnqueues (C06.R5).
